@@ -8,6 +8,7 @@ the negations, with concrete witnesses, where the code deviates from the guide.
 -/
 import KotoVerif.Lemmas.C04
 import KotoVerif.Lemmas.C04Unwind
+import KotoVerif.Lemmas.C04Refine
 import KotoVerif.Model.TryMech
 
 namespace KotoVerif.C04
@@ -297,11 +298,6 @@ theorem mech_uncaught (v : Val) (fs : List Frame) (h : ∀ g ∈ fs, g.catchStac
       simp [unwind, hg, ih (fun g hg => h g (by simp [hg]))]
   simp [raise, hs, this fs h]
 
-theorem steps_add (code : Code) (a b : Nat) (s : VM) : steps code (a + b) s = steps code b (steps code a s) := by
-  induction a generalizing s with
-  | zero => simp [steps]
-  | succ a ih => rw [Nat.succ_add]; simp [steps, ih]
-
 /-- **finally_once_mech_partial, normal exit.** For *any* code block `b` placed after a `TryStart`:
 if `b` runs to the `TryEnd` that follows it (top frame `f1`, catch entry still on top, frames below
 untouched), the next two instructions (`TryEnd`, `Jump`) take the machine to the `finally` entry
@@ -420,5 +416,110 @@ set_option maxRecDepth 4096 in
 frames deep inside a native callback, `finally` present) mechanism and guide agree -/
 theorem mech_agrees_on_normal_and_caught :
     guideTags wGood 40 = [1, 3, 4, 7, 6, 10] ∧ mechTags wGood 60 = some [1, 3, 4, 7, 6, 10] := by decide
+
+
+/-- **The layout refines the guide on the fragment without abrupt exits from try** (`Mech.Frag`:
+markers, `throw`, sequences, arbitrarily nested try / typed catch* / catch / finally; no
+`return`/`break`/`continue`; no error leaving a catch block of a try that has `finally`; errors may
+leave catch blocks of a try without `finally` and may be raised inside `finally`). For every such
+program and every fuel on which the guide-level evaluator finishes, the mechanism — the compiled
+`TryStart/TryEnd/Jump/CheckType` layout on the catch-stack machine — produces exactly the guide's
+marker trace and ends the same way (normally, or with the same uncaught value), for every
+sufficient step budget. Together with the negation witnesses above this delimits F-C04-1/F-C04-5
+exactly: the code deviates from the guide only through abrupt exits. -/
+theorem mech_trace_eq_guide_trace (P : Prog) (hdefs : P.defs = []) (hm : Frag P.main) (code : Code)
+    (hc : compileProg P = some code) (n : Nat) (hn : (runProg guide P n).1 ≠ .oof) :
+    ∃ k, ∀ fuel ≥ k, (exec code fuel).out = guideTags P n ∧
+      ((∃ v, (runProg guide P n).1 = .ok v ∧ (exec code fuel).result = .done) ∨
+       (∃ v, (runProg guide P n).1 = .err v ∧ (exec code fuel).result = .uncaught v)) := by
+  obtain ⟨c, hcm, rfl⟩ : ∃ c, compile 64 0 P.main = some c ∧ code = [c] := by
+    simp only [compileProg, hdefs, List.map_nil, compileProg.go, Option.bind_eq_bind,
+      Option.bind_eq_some_iff, Option.pure_def, Option.some.injEq] at hc
+    obtain ⟨c, h1, r, h2, h3⟩ := hc
+    subst h2
+    exact ⟨c, h1, h3.symm⟩
+  cases h : run guide P n (.ev P.main) (initSt P) with
+  | mk sig σ' =>
+    have hr := mech_refines_guide P hm 64 c hcm n sig σ' h
+    have htags : guideTags P n = tags σ'.out := by
+      simp [guideTags, runProg, h, callResult_out, tags]
+    cases sig with
+    | ok v =>
+      obtain ⟨k, hk⟩ := hr
+      refine ⟨k, fun fuel hf => ?_⟩
+      rw [hk fuel hf, htags]
+      exact ⟨rfl, .inl ⟨v, by simp [runProg, h, callResult], rfl⟩⟩
+    | err v =>
+      obtain ⟨k, hk⟩ := hr
+      refine ⟨k, fun fuel hf => ?_⟩
+      rw [hk fuel hf, htags]
+      exact ⟨rfl, .inr ⟨v, by simp [runProg, h, callResult], rfl⟩⟩
+    | oof => exact absurd (by simp [runProg, h, callResult]) hn
+    | vals _ => exact absurd hr (by simp)
+    | ret _ => exact absurd hr (by simp)
+    | brk => exact absurd hr (by simp)
+    | cont => exact absurd hr (by simp)
+
+/-- non-vacuity: a program of the fragment with a typed chain, a nested try whose catch block
+raises again (no finally there), an error raised inside `finally`, all under an outer try with
+`finally` — and it is evaluated by both sides -/
+def wFrag : Prog :=
+  { mainLocals := 2
+    main := .try_
+      (.seq [.emit 1 none,
+        .try_ (.throw (.lit (.int 5))) [(some .string, 0, .emit 2 none), (none, 0, .seq [.emit 3 none, .throw s0])] none,
+        .emit 4 none])
+      [(some .number, 1, .emit 5 none), (none, 1, .emit 6 none)]
+      (some (.seq [.emit 7 none, .throw s1])) }
+
+theorem wFrag_in_fragment : Frag wFrag.main := by
+  refine .tryFin _ _ _ (.seq _ ?_) ?_ ?_ (.seq _ ?_)
+  · intro e he
+    simp at he
+    rcases he with rfl | rfl | rfl
+    · exact .emit 1
+    · refine .tryNoFin _ _ (.throw _) ?_ (by simp [LastUntyped])
+      intro c hc
+      simp at hc
+      rcases hc with rfl | rfl
+      · exact .emit 2
+      · refine .seq _ ?_
+        intro e he
+        simp at he
+        rcases he with rfl | rfl
+        · exact .emit 3
+        · exact .throw _
+    · exact .emit 4
+  · intro c hc
+    simp at hc
+    rcases hc with rfl | rfl
+    · exact .emit 5
+    · exact .emit 6
+  · simp [LastUntyped]
+  · intro e he
+    simp at he
+    rcases he with rfl | rfl
+    · exact .emit 7
+    · exact .throw _
+
+example : guideTags wFrag 40 = [1, 3, 6, 7] ∧ (runProg guide wFrag 40).1 = .err (.str (.lit 1)) ∧
+    mechTags wFrag 60 = some [1, 3, 6, 7] := by decide
+
+/-- **Unwinding leaves every other register alone.** Under the hypotheses of
+`mech_handler_innermost`, in the frame that resumes only the catch entry's own register changes
+(it receives the error value); every other register of that frame, and every frame below it with
+all its registers, is exactly as it was at the raise point. (The value-stack *length* side of this —
+what finding F-C04-3 broke — is C07's `Unwind` model.) -/
+theorem unwind_registers_untouched (v : Val) (above : List Frame) (f : Frame) (below : List Frame)
+    (reg ip d : Nat) (cs : List (Nat × Nat × Nat))
+    (habove : ∀ g ∈ above, g.catchStack = []) (hf : f.catchStack = (reg, ip, d) :: cs) :
+    ∃ f', unwind v (above ++ f :: below) = some (f' :: below) ∧
+      regGet f'.regs reg = v ∧ (∀ r, r ≠ reg → regGet f'.regs r = regGet f.regs r) ∧
+      f'.catchStack = f.catchStack ∧ f'.fn = f.fn := by
+  refine ⟨_, mech_handler_innermost v above f below reg ip d cs habove hf, ?_, ?_, rfl, rfl⟩
+  · simp [regGet]
+  · intro r hr
+    have : (reg == r) = false := by simp [Ne.symm hr]
+    simp [regGet, List.find?, this]
 
 end KotoVerif.C04
